@@ -326,7 +326,7 @@ void reb_read_simulationarchive_from_stream_with_messages(struct reb_simulationa
                     sa->t = NULL;
                     free(sa->offset);
                     sa->offset = NULL;
-                    free(sa);
+                    // Note: sa itself is owned by the caller (it might not even be heap memory, e.g. when called from python). Do not free it here.
                     *warnings |= REB_SIMULATION_BINARY_ERROR_SEEK;
                     return;
                 }
